@@ -136,7 +136,12 @@ def main():
                 tb = traceback.format_exc()
                 broken.append({"obligation": "correspondence could not be established (harness exception)", "detail": tb[-1500:]})
         corr_fail = [f for f in ctx.failures if f["kind"] == "correspondence"]
-        boost = bool(broken or corr_fail)
+        # anchored source that differs from what the models were validated against: not a violation, but search harder
+        changed_src, fp_base = core.changed_sources(prop)
+        if changed_src:
+            ctx.notes.append(f"anchored source changed since {str(fp_base)[:10]}: " + ", ".join(changed_src[:12]) +
+                             (" …" if len(changed_src) > 12 else "") + " — failing-input search boosted")
+        boost = bool(broken or corr_fail or changed_src)
         try:
             mod.oracle(ctx, boost)
         except Exception:
@@ -229,6 +234,7 @@ def main():
         "machinery_problems": machinery,
         "notes": ctx.notes,
         "exhaustive_parts": ctx.exhaustive,
+        "anchored_source_changed": (changed_src if 'changed_src' in dir() else []),
     }
     if level == "other":
         cov["explanation"] = getattr(mod, "EXPLANATION", "")
